@@ -29,7 +29,11 @@ theorem groupBy_partition (hash : Nat → Nat) (eqv : Nat → Nat → Bool) (kr 
 -- `C04GrouperGen.gen_grouper_semantics` (corollary `gen_groupBy_partition`: the theorem above for the regenerated code).
 -- The `Hash` functions of the column packages and the built-in aggregations are not compared as text: their meaning is
 -- regenerated on every run and proved in `C04Hash` (Equal keys hash equal) and `C04Aggregations` (= the spec's functions).
-theorem tie : Tie.sameAll ["grouper.maxLoadFactor", "grouper.growthFactor", "grouper.calculateInitialSizeExp", "grouper.insertEntry", "grouper.grow", "grouper.groupIndex", "grouper.GroupBy", "grouper.equals", "grouper.table.hash", "grouper.newTable", "qframe.QFrame.GroupBy", "qframe.Aggregate", "qframe.Grouper.QFrames"] = true := by decide
+-- Tie audit (bin/selftest-ties): the following functions are not compared as text any more; every behaviour-changing edit of
+-- them makes a `gen_*_canon` theorem of this property's modules fail, renaming their locals or reformatting them changes nothing:
+-- `maxLoadFactor`, `growthFactor`, `calculateInitialSizeExp`, `table.insertEntry`, `table.grow`, `groupIndex`, `GroupBy`, `equals`, `table.hash`, `newTable`:
+-- regenerated as `Gen.grouperFns` (grpast.go, the constants are folded into the terms), `C04GrouperCanon.gen_grouper_canon` + `C04GrouperGen.gen_grouper_semantics`.
+theorem tie : Tie.sameAll ["qframe.QFrame.GroupBy", "qframe.Aggregate", "qframe.Grouper.QFrames"] = true := by decide
 
 /-- The load factor and growth factor of the table in today's source: the probe terminates because the table is
 never full (`maxLoadFactor < 1`) and growth doubles the size. -/
